@@ -199,7 +199,7 @@ class LegacyDFXPWriter(BaseWriter):
 
         for node in caption.nodes:
             if node.type_ == CaptionNode.TEXT:
-                line += escape(node.content) + ' '
+                line += escape(node.content)
 
             elif node.type_ == CaptionNode.BREAK:
                 line = line.rstrip() + '<br/>\n    '
@@ -219,12 +219,12 @@ class LegacyDFXPWriter(BaseWriter):
 
             if styles:
                 if self.open_span:
-                    line = line.rstrip() + '</span> '
+                    line = line + '</span>'
                 line += f'<span{styles}>'
                 self.open_span = True
 
         elif self.open_span:
-            line = line.rstrip() + '</span> '
+            line = line + '</span>'
             self.open_span = False
 
         return line
